@@ -32,6 +32,13 @@ fn watchdog(tier: Tier) {
 }
 
 fn main() {
+    // same stack size as the worker threads of the checks, so that single-case runs are comparable
+    let h = std::thread::Builder::new().stack_size(64 << 20).spawn(real_main).expect("spawn main thread");
+    let _ = h.join();
+    std::process::exit(2);
+}
+
+fn real_main() {
     let args: Vec<String> = std::env::args().collect();
     if args.len() < 3 {
         usage();
